@@ -16,6 +16,7 @@ CONSTANTS
  Probes = TRUE
  Exts = {TRUE, FALSE}
  KeepSlots = FALSE
+ TarUnverified = FALSE
 INIT GInit
 NEXT GNext
 INVARIANTS Emit
